@@ -238,6 +238,24 @@ fn common_spaces(prop: &'static str, flags: [u32; 6], tier: Tier, other_scripts:
             check_preimage(prop, &Q { tx: &tx, idx: *idx, subscript: &sub, value: 0x0807060504030201, flag: flags[c[1] as usize] }, acc, case);
         }));
     }
+    // outputs forced to collide: every tuple of 1..3 outputs over two distinct outputs {A, B} (equal outputs included)
+    {
+        let mut tuples: Vec<Vec<u8>> = vec![];
+        for n in 1..=3usize {
+            for m in 0..(1u32 << n) {
+                tuples.push((0..n).map(|k| ((m >> k) & 1) as u8).collect());
+            }
+        }
+        let nt = tuples.len() as u64;
+        v.push(Space::new("output-tuples", nt * 6 * 3, move |case, acc| {
+            let c = coords(case.idx, &[nt, 6, 3]);
+            let t = &tuples[c[0] as usize];
+            let mut tx = base_tx(3, 0, &[0x01020304, 0xfffffffe, 7], other_scripts);
+            tx.outputs = t.iter().map(|k| if *k == 0 { ROut { value: 1000, script: p2pkh(0xaa) } } else { ROut { value: 2000, script: p2pkh(0xbb) } }).collect();
+            let sub = vec![0xac];
+            check_preimage(prop, &Q { tx: &tx, idx: c[2] as usize, subscript: &sub, value: 9, flag: flags[c[1] as usize] }, acc, case);
+        }));
+    }
     v.push(Space::new("ints", 4 * 4 * 4 * 6 * 2, move |case, acc| {
         let c = coords(case.idx, &[4, 4, 4, 6, 2]);
         let mut tx = base_tx(2, 2, &[0x01020304, 0xfffffffe], other_scripts);
@@ -277,6 +295,7 @@ pub fn spaces_c03(tier: Tier) -> Vec<Space> {
             check_preimage("C03", &Q { tx: &tx, idx: c[2] as usize, subscript: sub, value: 3, flag: sh::FORKID_FLAGS[c[1] as usize] }, acc, case);
         }));
     }
+    v.push(skeleton_space("C03", sh::FORKID_FLAGS, tier, false));
     // bounded histories with the SPEC as oracle: build through the construction API, observe with flag f1,
     // apply one mutation, observe with flag f2 — the second preimage must equal the specification on the new contents
     {
@@ -481,8 +500,65 @@ fn codesep_subscripts() -> Vec<(String, Vec<u8>)> {
     v
 }
 
+/// Every well-formed token string of length <= max over {IF, ELSE, ENDIF, CODESEPARATOR, OP_1} that contains a separator.
+fn separator_skeletons(max: usize) -> Vec<Vec<u8>> {
+    let syms = [0x63u8, 0x67, 0x68, 0xab, 0x51];
+    let mut out = vec![];
+    fn rec(cur: &mut Vec<u8>, depth: Vec<bool>, max: usize, syms: &[u8; 5], out: &mut Vec<Vec<u8>>) {
+        if depth.is_empty() && cur.contains(&0xab) {
+            out.push(cur.clone());
+        }
+        if cur.len() == max {
+            return;
+        }
+        for &s in syms {
+            let mut d = depth.clone();
+            match s {
+                0x63 => d.push(false),
+                0x67 => match d.last_mut() {
+                    Some(seen) if !*seen => *seen = true,
+                    _ => continue,
+                },
+                0x68 => {
+                    if d.pop().is_none() {
+                        continue;
+                    }
+                }
+                _ => {}
+            }
+            // the remaining budget must suffice to close everything
+            if cur.len() + 1 + d.len() > max {
+                continue;
+            }
+            cur.push(s);
+            rec(cur, d, max, syms, out);
+            cur.pop();
+        }
+    }
+    rec(&mut vec![], vec![], max, &syms, &mut out);
+    out
+}
+
+fn skeleton_space(prop: &'static str, flags: [u32; 6], tier: Tier, other_scripts: bool) -> Space {
+    let sk = std::sync::Arc::new(separator_skeletons(if tier.is_thorough() { 9 } else { 8 }));
+    let n = sk.len() as u64;
+    Space::new("separator-skeletons", n * 6, move |case, acc| {
+        let c = coords(case.idx, &[n, 6]);
+        // a leading OP_1 feeds the first conditional; the skeleton itself is the interesting part
+        let mut sub = vec![0x51];
+        sub.extend_from_slice(&sk[c[0] as usize]);
+        sub.push(0xac);
+        let tx = base_tx(2, 2, &[7, 0xfffffffe], other_scripts);
+        if c[0] % 997 == 0 && c[1] == 0 {
+            acc.sample(case.idx + (3 << 32), || json!({"space": "separator-skeletons", "subscript_hex": hex::encode(&sub)}));
+        }
+        check_preimage(prop, &Q { tx: &tx, idx: 1, subscript: &sub, value: 5, flag: flags[c[1] as usize] }, acc, case);
+    })
+}
+
 pub fn spaces_c10(tier: Tier) -> Vec<Space> {
     let mut v = common_spaces("C10", sh::LEGACY_FLAGS, tier, true);
+    v.push(skeleton_space("C10", sh::LEGACY_FLAGS, tier, true));
     let subs = std::sync::Arc::new(codesep_subscripts());
     let n = subs.len() as u64;
     v.push(Space::new("codeseparators", n * 6 * 3 * 2, move |case, acc| {
